@@ -237,11 +237,21 @@ Definition compile_len_ok (compile : list str -> option (list (list node))) : Pr
 Definition mres_eqb (a : mres str) (b : str) : bool :=
   match a with MOk x => str_eqb x b | MErr _ => false end.
 
-Definition check_md_spec (i : md_in) (o : md_obs) : bool :=
-  check_md i o &&
+Definition is_compile_error (r : mres str) : bool :=
+  match r with MErr ECompile => true | _ => false end.
+
+Definition check_md_spec (i : md_in) (oc : md_outcome) : bool :=
+  check_md i oc &&
+  match oc with
+  | ObsCompileError =>
+      (* the specification fails in the same way *)
+      forallb (fun k => is_compile_error (spec_render (lookup_escape (in_escape i)) (lookup_compile (in_compile i))
+                                                      (lookup_render (in_render i)) k (in_doc i))) (in_scales i)
+  | ObsOk o =>
   all2 (fun k h =>
           mres_eqb (spec_render (lookup_escape (in_escape i)) (lookup_compile (in_compile i))
                                 (lookup_render (in_render i)) k (in_doc i)) h
           && freshb (lookup_escape (in_escape i)) (lookup_compile (in_compile i)) (lookup_render (in_render i))
                     k (in_doc i) (in_slugs i))
-       (in_scales i) (ob_html o).
+       (in_scales i) (ob_html o)
+  end.
